@@ -247,7 +247,6 @@ func e14Controller(P time.Duration, lr float64, slowAccept bool, closeAt int, vi
 	}}
 }
 
-
 // e14CtxCase: the context is cancelled from inside each of the library's own
 // consultations of it in turn (kit.TrigCtx): a cancellation that coincides
 // with the tick, with the start of a list, with the hand-over of a result.
